@@ -218,6 +218,8 @@ class ShaclSerializer(object):
             return URIRef(property_str[1:-1])
         elif property_str.startswith("http://") or property_str.startswith("https://"):
             return URIRef(property_str)
+        elif property_str.startswith("_:"):  # e.g., a blank node in the value set of an incoming instantiation link
+            return BNode(property_str[2:])
         raise ValueError("Having troubles recognizing this URI", property_str, ". "
                         "Is it well-formed? If you think so, add a GitHub issue. ")
 
